@@ -14,7 +14,7 @@ import dlib  # noqa: E402
 logging.disable(logging.CRITICAL)
 
 from traits.api import (  # noqa: E402
-    Any, CInt, Constant, Disallow, Event, Map, HasPrivateTraits, HasStrictTraits, HasTraits, Int, Python,
+    Any, CInt, Constant, Disallow, Event, List, Map, HasPrivateTraits, HasStrictTraits, HasTraits, Int, Python,
     ReadOnly, Str, Undefined,
 )
 
@@ -44,6 +44,8 @@ def atom(v):
         return 200
     if v is Undefined:
         return 201
+    if isinstance(v, list) and len(v) == 0:
+        return 300
     return OTHER
 
 
@@ -63,6 +65,8 @@ def mk(pol):
         return Event() if len(pol) == 1 else Event({"VInt": Int, "VStr": Str, "VCInt": CInt}[pol[1]])
     if k == "Map":      # ["Map", [[key, value], ...], default key]
         return Map({val(a): val(b) for a, b in pol[1]}, default_value=val(pol[2]))
+    if k == "List":
+        return List(Int)
     if k == "Typed":
         return {"VInt": Int, "VStr": Str, "VCInt": CInt}[pol[1]](val(pol[2]))
     raise ValueError(pol)
